@@ -9,7 +9,7 @@ for l in open('/verif/properties.jsonl'):
     d = json.loads(l); props[d['id']] = d
 tmpl = open('/verif/docs/agent_prompt_template.txt' if mode == 'break' else '/verif/docs/agent_refactor_template.txt').read()
 tried = []
-for mp in sorted(glob.glob('/verif/seeded/%s-m*/meta.json' % pid)):
+for mp in sorted(glob.glob(('/verif/seeded/%s-m*/meta.json' if mode == 'break' else '/verif/refactors/%s-r*/meta.json') % pid)):
     m = json.load(open(mp))
     tried.append('- ' + ' '.join((m.get('summary') or '').split())[:260])
 t = tmpl.replace('{WT}', wt).replace('{PID}', pid).replace('{TITLE}', props[pid]['title']).replace('{STATEMENT}', props[pid]['statement']).replace('{TRIED}', '\n'.join(tried) or '- (nothing yet)')
